@@ -12,7 +12,7 @@ import gram
 from impl import trees, treeoutput, treeinput, treeanalysis, quiet, clone
 
 ID = "C03"
-MODULE = ['TT.Props.C03', 'TT.Props.C03Own', 'TT.Props.C03Options', 'TT.Props.C03Run', 'TT.Props.C03Run2', 'TT.Props.C03Total', 'TT.Props.C03Chain', 'TT.Props.C18Src']
+MODULE = ['TT.Props.C03', 'TT.Props.C03Own', 'TT.Props.C03Options', 'TT.Props.C03Run', 'TT.Props.C03Run2', 'TT.Props.C03Total', 'TT.Props.C03Chain', 'TT.Props.C18Src', 'TT.Props.C03Words']
 RULE = ("`treetools transform` on generated treebanks (1..4 sentences) for all 4x5 (source, destination) format pairs, "
         "A->B->A chains, own-format round trips, encodings utf-8 / latin-1 / utf-16 on either side, gzip sources, "
         "directory sources, export v3/v4. The destination is decoded by the specification decoder and compared with "
@@ -254,6 +254,12 @@ def gz_twin_case(rng):
 def gen(seed, tier, scale):
     for i in range((24 if tier == "quick" else 300) * scale):
         yield 200000 + i, gz_twin_case(case_rng(seed, ID, 200000 + i))
+    # wave 18: the words of `--src-opts` through `treeanalysis` and `transform` against TT.runAnalysisWords / TT.runWords
+    import srccases
+    nw = (24 if tier == "quick" else 400) * scale
+    rngs = [case_rng(seed, ID, 700000 + i) for i in range(nw)]
+    for i, c in enumerate(cli.pmap(srccases.words_case, rngs)):
+        yield 700000 + i, c
     idx = 100000
     for _ in range((300 if tier == "quick" else 5000) * scale):
         rng = case_rng(seed, ID, idx)
